@@ -622,6 +622,7 @@ type c19Arr struct {
 }
 
 type c19Sack struct {
+	Opt vfOptMix `json:"opt,omitempty"` // options that must not matter here
 	IL  bool     `json:"il"`
 	TSN uint32   `json:"tsn"`
 	Arr []c19Arr `json:"arr"`
@@ -643,6 +644,7 @@ func genC19Sack(rt *rapid.T) c19Sack {
 		}
 		sc.Arr = append(sc.Arr, a)
 	}
+	sc.Opt = genOptMix(rt, "opt")
 	sc.Pending = rapid.IntRange(0, 3).Draw(rt, "pending") == 0
 	return sc
 }
@@ -650,6 +652,7 @@ func genC19Sack(rt *rapid.T) c19Sack {
 func runC19Sack(t *testing.T, sc c19Sack, verbose bool) (c vfCase) {
 	var e1 vfE1
 	e1.Cfg[0] = vfSideCfg{IL: sc.IL, TSN: 777}
+	sc.Opt.apply(&e1.Cfg[0])
 	pm := vfBubble(t, func() {
 		s := newVfSim(t, &e1, verbose)
 		p := newVfPuppet(s, 1, vfPuppetCfg{IL: sc.IL, TSN: sc.TSN})
